@@ -40,6 +40,9 @@ type Gen struct {
 	DownFrom  int64
 	downDrawn bool
 
+	// RestartPer: the node is restarted before 1 block in RestartPer (0 = the default 30)
+	RestartPer int
+
 	// NoBlockGasObserver: generated contracts do not read GASLIMIT (the chain feeds it the block's running gas total,
 	// the one thing a failed transaction may advance: C06's twin legitimately differs in it)
 	NoBlockGasObserver bool
